@@ -22,9 +22,14 @@ tvars == <<l, stack, viol, drift>>
 
 ObsR(line, o) == [kind |-> line.k, tx |-> line.tx, code |-> o.code, events |-> o.events, updates |-> o.updates]
 
+(* a forged transaction is executed under the address its signature happens to recover to, which is
+   outside the universe: the application records that address's nonce; nothing else may change *)
+Known(st) == [st EXCEPT !.nonces = [a \in Addrs |-> st.nonces[a]]]
+
 SpecAllows(pre, line, o) ==
     CASE line.k = "tx"  -> /\ \E x \in DeliverTx(pre, line.tx) :
-                                x.st = o.st /\ x.code = o.code /\ x.events = o.events
+                                /\ IF line.tx.k = "forged" THEN Known(x.st) = Known(o.st) ELSE x.st = o.st
+                                /\ x.code = o.code /\ x.events = o.events
                            /\ o.updates = <<>> /\ o.begin = <<>>
       [] line.k = "chk" -> LET x == CheckTx(pre, line.tx) IN
                            x.st = o.st /\ x.code = o.code /\ o.events = <<>> /\ o.updates = <<>> /\ o.begin = <<>>
